@@ -3,6 +3,7 @@ import MypyVerif.Proofs.LayoutFS
 import MypyVerif.Proofs.LayoutDir
 import MypyVerif.Proofs.LayoutPkg
 import MypyVerif.Proofs.LayoutSort
+import MypyVerif.Proofs.LayoutPerm
 import MypyVerif.Gen.LayoutConsts
 /-!
 # C18 — files and module names map to each other consistently
@@ -137,6 +138,22 @@ theorem roundtrip_or_duplicate_partial (fs : FS) (wf : fs.WF) (o : Opts) (fuel :
           rw [modId_of_importable himp, modId_of_importable (by rw [hmod]; exact himp), hmod]
         simp only [Bool.and_eq_true, bne_iff_ne, ne_eq, decide_eq_true_eq]
         exact ⟨fun he => hsame (by rw [← hp', ← he]), hid.symm⟩
+
+/-! ## the first alternative does not depend on the order of the arguments -/
+
+/-- **The duplicate-module stop is order independent.**  For every permutation of the command-line arguments
+    `create_source_list` succeeds or fails alike, yields a permutation of the same build sources, and load_graph's
+    test on the initial sources (`firstDuplicate`: "Duplicate module named …") fires for the one order exactly
+    when it fires for the other — and it fires exactly when two sources share a module id.  (The harness runs the
+    real build on contested listings in several orders: an order dependence of the real tool is a correspondence
+    break with a concrete replay.) -/
+theorem duplicate_order_independent (fs : FS) (o : Opts) (fuel : Nat) (args args' : List Path) (srcs : List Src)
+    (hperm : args.Perm args') (hcreate : createSourceList fs o fuel args = .ok srcs) :
+    ∃ srcs', createSourceList fs o fuel args' = .ok srcs' ∧ srcs.Perm srcs' ∧
+      (firstDuplicate srcs []).isSome = (firstDuplicate srcs' []).isSome ∧
+      ((firstDuplicate srcs []).isSome = true ↔ ¬ (srcs.map Src.modId).Nodup) := by
+  obtain ⟨srcs', h1, h2⟩ := createSourceList_perm fs o hperm srcs hcreate
+  exact ⟨srcs', h1, h2, firstDuplicate_perm h2, firstDuplicate_isSome srcs⟩
 
 /-! ## the full-strength statement is false of the current code: witnesses
 
@@ -390,11 +407,6 @@ example : (match findSourcesInDir fsGood oGood 8 (pth ["w", "r", "p"]) with
 
 /-! ## naming the package with `-p` -/
 
-/-- for a namespace near miss the crawl only reaches the search root when the top-level directory of the module is a
-    regular package or the root is an explicit base (asked of every root that has the module's directory at all) -/
-def topOK (fs : FS) (o : Opts) (roots : List Path) (m : List Name) : Bool :=
-  roots.all fun R => o.isBase R || m.length ≤ 1 || !fs.isDir (R ++ m.dropLast) || hasInit fs (R ++ [m.headD []])
-
 /-- **`mypy -p PKG` names files as `mypy FILES…` does (provable part).**  Every *file* that
     `find_modules_recursive(PKG)` turns into a build source with an importable module name `m` is given the same
     name `m` by `crawl_up` (so the three invocation styles agree on module ↦ file for it) — when the configured
@@ -548,5 +560,11 @@ example : fsGood.WF := ofEntries_wf _
 example : (match createSourceList fsGood oGood 8 [pth ["w", "r", "p", "m.py"], pth ["w", "r", "p", "m.pyi"]] with
     | .ok srcs => hasDuplicate srcs && firstDuplicate srcs [] == some (pth ["p", "m"])
     | .error _ => false) = true := by decide
+
+/-- non-vacuity of `duplicate_order_independent`: `p/m.py p/m.pyi` and `p/m.pyi p/m.py` both stop with the duplicate `p.m` -/
+example : (match createSourceList fsGood oGood 8 [pth ["w", "r", "p", "m.py"], pth ["w", "r", "p", "m.pyi"]],
+                 createSourceList fsGood oGood 8 [pth ["w", "r", "p", "m.pyi"], pth ["w", "r", "p", "m.py"]] with
+    | .ok a, .ok b => firstDuplicate a [] == some (pth ["p", "m"]) && firstDuplicate b [] == some (pth ["p", "m"])
+    | _, _ => false) = true := by decide
 
 end Layout
